@@ -73,6 +73,9 @@ def _spec(draw, tier):
             if d["op"] == "delete_clamps":
                 d["state"] = draw(st.sampled_from([None, "v"]))
             oplist.append(d)
+        # group bookkeeping must follow a later change of the compartment count
+        if op["op"] == "add_to_group" and not network and draw(st.integers(0, 1)) == 0:
+            oplist.append({"op": "set_ncomp", "branch": draw(fl(0.0, 0.999)), "n": draw(st.integers(1, 4))})
         # synaptic trainables (parameters and initial states) followed by a deletion through a node view or an edge view
         if op["op"] == "make_trainable_edge" and draw(st.integers(0, 1)) == 0:
             if draw(st.booleans()):
